@@ -78,15 +78,15 @@ LEVEL_NOTE = ('Trusted: stdlib symtable and CPython 3.12 co_positions; the paral
               'that keeps programs total. Outside: async constructs, match statements, type-parameter scopes, star-imports, name mangling.')
 
 # Exclusion flags (DESIGN 1.5): shapes of reported findings, removed from the generator by construction.
-#   F9_nested_param_leak        parameters of a def/lambda leak into the defining scope's bound/params
-#   F30_param_annotation_reads  names read by parameter annotations are missing from the def statement's read set
-#   F31_walrus_in_comprehension a walrus target inside a comprehension is treated as an iteration variable
-#   F32_nonlocal_passthrough    `nonlocal n` in H resolving above the directly enclosing function F: n missing from free(F)
-#   F33_class_binding_captures  a class-level binding hides reads of the same name made by methods/lambdas/comprehension bodies
-#   F34_lambda_in_first_iterable a lambda in the first iterable of a comprehension that reads a name also used as iteration variable
+#   F09_nested_param_leak        parameters of a def/lambda leak into the defining scope's bound/params
+#   FC08a_param_annotation_reads  names read by parameter annotations are missing from the def statement's read set
+#   FC08b_walrus_in_comprehension a walrus target inside a comprehension is treated as an iteration variable
+#   FC08c_nonlocal_passthrough    `nonlocal n` in H resolving above the directly enclosing function F: n missing from free(F)
+#   FC08d_class_binding_captures  a class-level binding hides reads of the same name made by methods/lambdas/comprehension bodies
+#   FC08e_lambda_in_first_iterable a lambda in the first iterable of a comprehension that reads a name also used as iteration variable
 #                               loses that read (the iterable is visited twice, the second visit overwrites the lambda's scopes)
-EXCL = ('F9_nested_param_leak', 'F30_param_annotation_reads', 'F31_walrus_in_comprehension', 'F32_nonlocal_passthrough',
-        'F33_class_binding_captures', 'F34_lambda_in_first_iterable')
+EXCL = ('F09_nested_param_leak', 'FC08a_param_annotation_reads', 'FC08b_walrus_in_comprehension', 'FC08c_nonlocal_passthrough',
+        'FC08d_class_binding_captures', 'FC08e_lambda_in_first_iterable')
 if os.environ.get('VF_C08_EXCL') is not None:   # dev only: comma list overriding the exclusions
   EXCL = tuple(x for x in os.environ['VF_C08_EXCL'].split(',') if x)
 
@@ -270,8 +270,8 @@ class Gen(object):
     if r == 'none' or n in sc.pending_names() or n in sc.avoid:
       return False
     if sc.kind == 'class' and sc.in_class_comp and r in ('local', 'global', 'nonlocal') \
-        and 'F33_class_binding_captures' in self.excl:
-      self.note('excluded:F33_class_binding_captures')
+        and 'FC08d_class_binding_captures' in self.excl:
+      self.note('excluded:FC08d_class_binding_captures')
       return False
     return True
 
@@ -395,8 +395,8 @@ class Gen(object):
     if sc.comp or sc.within_comp:
       if sc.kind == 'class':
         return self.atom(sc)
-      if 'F31_walrus_in_comprehension' in self.excl:
-        self.note('excluded:F31_walrus_in_comprehension')
+      if 'FC08b_walrus_in_comprehension' in self.excl:
+        self.note('excluded:FC08b_walrus_in_comprehension')
         return self.atom(sc)
     cand = [n for n in POOL if self.bindable(sc, n) and n not in act]
     if not cand:
@@ -411,7 +411,7 @@ class Gen(object):
 
   def allowed_params(self, sc):
     """Pool names a def/lambda evaluated in scope sc may use as parameter names."""
-    if 'F9_nested_param_leak' not in self.excl:
+    if 'F09_nested_param_leak' not in self.excl:
       return list(POOL)
     if sc.kind == 'class':
       return [n for n in POOL if sc.roles.get(n) == 'local']
@@ -423,8 +423,8 @@ class Gen(object):
     allowed = self.allowed_params(sc)
     want = max(minp, self.i(5))
     if want > len(allowed):
-      if 'F9_nested_param_leak' in self.excl:
-        self.note('excluded:F9_nested_param_leak', )
+      if 'F09_nested_param_leak' in self.excl:
+        self.note('excluded:F09_nested_param_leak', )
       want = len(allowed)
     pool = list(allowed)
     names = []
@@ -445,7 +445,7 @@ class Gen(object):
     if first is not None:
       names.insert(0, first)
       kinds.insert(0, 1 if 0 not in kinds else 0)
-    ann = ann and 'F30_param_annotation_reads' not in self.excl
+    ann = ann and 'FC08a_param_annotation_reads' not in self.excl
     pos = [n for n, k in zip(names, kinds) if k in (0, 1)]
     first_default = self.i(len(pos) + 1) if pos and self.chance(50) else len(pos)
     if first is not None:
@@ -587,11 +587,11 @@ class Gen(object):
         ok, direct = self.nonlocal_ok(sc, n)
         if not ok:
           r = 'free'
-        elif not direct and 'F32_nonlocal_passthrough' in self.excl:
-          self.note('excluded:F32_nonlocal_passthrough')
+        elif not direct and 'FC08c_nonlocal_passthrough' in self.excl:
+          self.note('excluded:FC08c_nonlocal_passthrough')
           r = 'free'
-      if r in ('free', 'nonlocal') and 'F33_class_binding_captures' in self.excl and self.class_shadow(sc, n):
-        self.note('excluded:F33_class_binding_captures')
+      if r in ('free', 'nonlocal') and 'FC08d_class_binding_captures' in self.excl and self.class_shadow(sc, n):
+        self.note('excluded:FC08d_class_binding_captures')
         r = 'local' if sc.kind in ('func', 'class') else 'none'
       sc.roles[n] = r
       if r == 'local':
@@ -608,7 +608,7 @@ class Gen(object):
     child.no_walrus = sc.no_walrus or sc.in_iter > 0
     child.within_comp = sc.within_comp or bool(sc.comp)
     child.avoid = set(sc.avoid)
-    if child.within_comp and 'F31_walrus_in_comprehension' in self.excl:
+    if child.within_comp and 'FC08b_walrus_in_comprehension' in self.excl:
       child.no_walrus = True
     # a lambda written inside a comprehension sees the iteration variables as free names
     sig, spec = self.signature(sc, child, ann=False)
@@ -641,7 +641,7 @@ class Gen(object):
 
   def comp_target(self, sc, avoid=()):
     if avoid:
-      self.note('excluded:F34_lambda_in_first_iterable')
+      self.note('excluded:FC08e_lambda_in_first_iterable')
     n1 = self.pick([n for n in POOL if n not in avoid])
     if self.chance(25):
       n2 = self.pick([n for n in POOL if n != n1 and n not in avoid])
@@ -655,10 +655,10 @@ class Gen(object):
     it0 = self.expr(sc, d - 1)
     avoid = self.iter_lams.pop()
     sc.in_iter -= 1
-    if 'F34_lambda_in_first_iterable' not in self.excl:
+    if 'FC08e_lambda_in_first_iterable' not in self.excl:
       avoid = set()
     elif len(avoid) > len(POOL) - 2:
-      self.note('excluded:F34_lambda_in_first_iterable')
+      self.note('excluded:FC08e_lambda_in_first_iterable')
       it0, avoid = self.atom(sc), set()
     t0, names = self.comp_target(sc, avoid)
     two = self.chance(25)
@@ -1083,7 +1083,7 @@ class Gen(object):
     top = Sc('func', None)
     self.excl_saved = set(self.excl)
     # the root function's parameters leak nowhere: all kinds and names are allowed
-    self.excl.discard('F9_nested_param_leak')
+    self.excl.discard('F09_nested_param_leak')
     sig, spec = self.signature(self.module_sc, top, minp=2)
     self.excl = self.excl_saved
     self.decide_roles(top, [('local', 40), ('free', 25), ('none', 10), ('global', 25)])
@@ -1275,7 +1275,8 @@ def binding_occurrences(fn):
   def rec(n, in_comp_targets):
     for c in ast.iter_child_nodes(n):
       if isinstance(c, (ast.FunctionDef, ast.ClassDef)):
-        out.add(c.name)
+        if c.name not in in_comp_targets:
+          out.add(c.name)
         for h in _header_children(c):
           rec_node(h, in_comp_targets)
         continue
@@ -1288,7 +1289,7 @@ def binding_occurrences(fn):
   def rec_node(c, tg):
     if isinstance(c, (ast.FunctionDef, ast.ClassDef, ast.Lambda)):
       # reached through a header list of an enclosing call; treat like a child
-      if not isinstance(c, ast.Lambda):
+      if not isinstance(c, ast.Lambda) and c.name not in tg:
         out.add(c.name)
       for h in _header_children(c):
         rec_node(h, tg)
@@ -1425,6 +1426,14 @@ def check_static(src, top, fails, stats):
   for node, tab in pairs:
     if tab is None or not isinstance(node, (ast.FunctionDef, ast.Lambda)):
       continue
+    # (same family: a def/lambda written inside a comprehension refers to the iteration variables; whether the
+    # enclosing functions then "need" those names depends on the inlining, so they are don't-care there too)
+    inside = enclosing_comp_targets(node)
+    p = getattr(node, '_parent', None)
+    while inside and p is not None:
+      if isinstance(p, (ast.FunctionDef, ast.Lambda)):
+        artefact[p] |= inside
+      p = getattr(p, '_parent', None)
     only_comp = exempt_names(node) - binding_occurrences(node)
     if not only_comp:
       continue
